@@ -1,9 +1,9 @@
 (* Proofs for C14: for EVERY crash configuration allowed by program order
    (every crash point under every interleaving of the instance goroutines, any
    plan), recovery leaves usage = sum of recorded workloads on every node and
-   every instance fully created or absent (except the unlogged container); the
-   in-progress marker is gone unless the crash fell between the WAL commit of
-   the create-processing entry and DeleteProcessing - which is refuted as stated. *)
+   every instance fully created or absent (except the unlogged container), and
+   no in-progress marker.  (Model of create.go after the repair of the deferred
+   clean-up order; the old order leaked the marker: old_order_marker_leak.) *)
 From Coq Require Import List Bool Arith ZArith Lia.
 From Verif Require Import Calcium.Recover.
 Import ListNotations.
@@ -82,7 +82,7 @@ Theorem recover_node_ok : forall g nc u0 r0,
   valid g = true -> In nc (per_node g) -> u0 = r0 ->
   let ns := crash_node u0 r0 nc in
   let ns' := recover_node (wal_alloc_open g) ns in
-  usage_ok ns' = true /\ insts_ok ns ns' = true /\ (leak_window nc = false -> marker_ok ns' = true).
+  usage_ok ns' = true /\ insts_ok ns ns' = true /\ marker_ok ns' = true.
 Proof.
   intros g nc u0 r0 V Hin E. subst u0. pose proof (valid_node_of g nc V Hin) as VN.
   unfold valid_node in VN. repeat (apply andb_true_iff in VN; destruct VN as [VN ?]).
@@ -107,6 +107,7 @@ Proof.
         apply negb_false_iff in Eo. unfold valid in V. apply andb_true_iff in V. destruct V as [_ V].
         rewrite Eo in V. cbn in V. apply andb_true_iff in V. destruct V as [_ Vc].
         rewrite forallb_forall in Vc. specialize (Vc nc Hin). rewrite Vc in Hcom. cbn in Hcom.
+        apply andb_true_iff in Hcom. destruct Hcom as [Hcom _].
         apply andb_true_iff in Hcom. destruct Hcom as [Hall Hmade].
         rewrite forallb_forall in Hall, Hmade. specialize (Hall nc Hin). specialize (Hmade nc Hin).
         rewrite Hmade in Hmm. cbn in Hmm. rewrite Hmm in Hpl. cbn in Hpl. rewrite Hpl.
@@ -114,11 +115,12 @@ Proof.
         rewrite (count_none in_flight); [lia|].
         rewrite forallb_forall in *. intros s Hs. specialize (Hall s Hs). destruct s; cbn in *; congruence.
   - unfold insts_ok, recover_node, crash_node. cbn [insts]. apply insts_recover_ok.
-  - intros Hl. unfold marker_ok, recover_node, crash_node. cbn [marker wal_proc].
-    unfold leak_window in Hl.
+  - unfold marker_ok, recover_node, crash_node. cbn [marker wal_proc].
     destruct (marker_made nc) eqn:Em; cbn in *; [|destruct (proc_logged nc && negb (proc_committed nc)); reflexivity].
-    rewrite Hmm. cbn. destruct (marker_deleted nc); cbn in *; [destruct (negb (proc_committed nc)); reflexivity|].
-    rewrite Hl. reflexivity.
+    rewrite Hmm. cbn. destruct (marker_deleted nc) eqn:Ed; cbn in *; [destruct (negb (proc_committed nc)); reflexivity|].
+    destruct (proc_committed nc) eqn:Ec; [|reflexivity]. exfalso. cbn in Hcom.
+    apply andb_true_iff in Hcom. destruct Hcom as [_ Hd]. rewrite forallb_forall in Hd.
+    specialize (Hd nc Hin). congruence.
 Qed.
 
 (* the whole deployment *)
@@ -128,22 +130,37 @@ Theorem recovery_ok : forall g (before : list (Z * Z)),
   forall p nc, In (p, nc) (combine before (per_node g)) ->
   let ns := crash_node (fst p) (snd p) nc in
   let ns' := recover_node (wal_alloc_open g) ns in
-  usage_ok ns' = true /\ insts_ok ns ns' = true /\ (leak_window nc = false -> marker_ok ns' = true).
+  usage_ok ns' = true /\ insts_ok ns ns' = true /\ marker_ok ns' = true.
 Proof.
   intros g before V Hlen Hinv p nc Hin. apply recover_node_ok; [exact V | | ].
   - eapply in_combine_r. exact Hin.
   - apply Hinv. eapply in_combine_l. exact Hin.
 Qed.
 
-(* ---------- the refutation: the marker leaks in one window ---------- *)
-Definition leak_calls : list gcall :=
+(* after the repair the leak window is unreachable *)
+Lemma valid_no_leak_window : forall g nc, valid g = true -> In nc (per_node g) -> leak_window nc = false.
+Proof.
+  intros g nc V Hin. pose proof (valid_node_of g nc V Hin) as VN.
+  unfold valid_node in VN. repeat (apply andb_true_iff in VN; destruct VN as [VN ?]).
+  unfold leak_window. destruct (proc_committed nc) eqn:Ec; [|destruct (marker_made nc && negb (marker_deleted nc)); reflexivity].
+  cbn in H0. apply andb_true_iff in H0. destruct H0 as [_ Hd]. rewrite forallb_forall in Hd.
+  rewrite (Hd nc Hin). destruct (marker_made nc); reflexivity.
+Qed.
+
+(* what the code did before the repair (create-processing entries committed
+   BEFORE the markers were deleted): a crash in between left the marker *)
+Example old_order_marker_leak :
+  marker_ok (recover_node true (crash_node 0 0 (mkNc true true true [S6] true false))) = false.
+Proof. reflexivity. Qed.
+
+(* a complete run, cut right before the WAL commits: the markers are already gone *)
+Definition late_calls : list gcall :=
   [GLogAlloc; GAlloc 0; GLogProc 0; GCreateProc 0;
    GInst 0 0; GInst 0 0; GInst 0 0; GInst 0 0; GInst 0 0; GInst 0 0;
-   GCommitProc 0].
-
-Theorem marker_leak : exists g nc,
-  grun (gc_start [1%nat]) leak_calls = Some g /\ valid g = true /\ per_node g = [nc] /\
-  marker_ok (recover_node (wal_alloc_open g) (crash_node 0 0 nc)) = false.
+   GDeleteProc 0].
+Example late_crash : exists g nc,
+  grun (gc_start [1%nat]) late_calls = Some g /\ valid g = true /\ per_node g = [nc] /\
+  marker_ok (recover_node (wal_alloc_open g) (crash_node 0 0 nc)) = true.
 Proof. eexists. eexists. split; [vm_compute; reflexivity|]. repeat split. Qed.
 
 (* non-vacuity: a crash in the middle of the second instance *)
@@ -155,3 +172,198 @@ Example mid_crash :
   /\ map (recover_node (wal_alloc_open g)) (map (crash_node 5 5) (per_node g))
      = [mkNs 6 5 None false [mkIs true (Some true) false; mkIs false None false]].
 Proof. eexists. split; [vm_compute; reflexivity|]. split; reflexivity. Qed.
+
+(* ---------- program order preserves [valid] ---------- *)
+Lemma forallb_upd_at : forall {A} (P : A -> bool) f l n,
+  forallb P l = true -> (forall x, nth_error l n = Some x -> P (f x) = true) ->
+  forallb P (upd n f l) = true.
+Proof.
+  intros A P f l. induction l as [|y t IH]; intros n H Hf; [destruct n; reflexivity|].
+  cbn in H. apply andb_true_iff in H. destruct H as [H1 H2]. destruct n as [|j]; cbn.
+  - rewrite (Hf y eq_refl), H2. reflexivity.
+  - rewrite H1. cbn. apply IH; [exact H2|]. intros x Hx. apply Hf. exact Hx.
+Qed.
+
+Lemma in_upd : forall {A} (f : A -> A) l n y, In y (upd n f l) ->
+  In y l \/ exists x, nth_error l n = Some x /\ y = f x.
+Proof.
+  intros A f l. induction l as [|z t IH]; intros n y H; [destruct n; destruct H|].
+  destruct n as [|j]; cbn in H.
+  - destruct H as [H|H]; [right; exists z; split; [reflexivity | symmetry; exact H] | left; right; exact H].
+  - destruct H as [H|H]; [left; left; exact H|]. destruct (IH _ _ H) as [H'|[x [Hx Hy]]].
+    + left. right. exact H'.
+    + right. exists x. split; assumption.
+Qed.
+
+Definition G1 g := forallb marker_made (per_node g).
+Definition G2 g := forallb (all_stage is_S6) (per_node g).
+Definition G3 g := forallb marker_deleted (per_node g).
+Definition G4 g := forallb proc_committed (per_node g).
+
+Lemma implb_mono : forall a b c, implb a b = true -> (b = true -> c = true) -> implb a c = true.
+Proof. intros [] b c H Hc; cbn in *; [apply Hc; exact H | reflexivity]. Qed.
+
+(* a node whose own configuration did not change stays valid when the global facts only grow *)
+Lemma valid_node_mono : forall g g' x,
+  alloc_logged g' = alloc_logged g \/ alloc_logged g' = true ->
+  (G1 g = true -> G1 g' = true) -> (G2 g = true -> G2 g' = true) -> (G3 g = true -> G3 g' = true) ->
+  valid_node g x = true -> valid_node g' x = true.
+Proof.
+  intros g g' x Hal H1 H2 H3 V. unfold valid_node in *. fold (G1 g) (G2 g) (G3 g) in V. fold (G1 g') (G2 g') (G3 g').
+  repeat (apply andb_true_iff in V; destruct V as [V ?]).
+  repeat (apply andb_true_iff; split).
+  - destruct Hal as [E|E]; rewrite E; [exact V | destruct (alloc_done x); reflexivity].
+  - assumption.
+  - assumption.
+  - eapply implb_mono; [eassumption | exact H1].
+  - eapply implb_mono; [eassumption|]. intros E. apply andb_true_iff in E. destruct E as [E E3].
+    apply andb_true_iff in E. destruct E as [E2 E1]. rewrite (H1 E1), (H2 E2), (H3 E3). reflexivity.
+  - eapply implb_mono; [eassumption|]. intros E. apply andb_true_iff in E. destruct E as [E2 E1].
+    rewrite (H1 E1), (H2 E2). reflexivity.
+Qed.
+
+Lemma valid_set0 : forall g n f nc,
+  nth_error (per_node g) n = Some nc -> valid g = true ->
+  let g' := mkGc (alloc_logged g) (alloc_committed g) (upd n f (per_node g)) in
+  (G1 g = true -> G1 g' = true) -> (G2 g = true -> G2 g' = true) -> (G3 g = true -> G3 g' = true) ->
+  (G4 g = true -> G4 g' = true) ->
+  valid_node g' (f nc) = true -> valid g' = true.
+Proof.
+  intros g n f nc Hn V g' H1 H2 H3 H4 Hf. unfold valid in *. apply andb_true_iff in V. destruct V as [V Vc].
+  apply andb_true_iff. split.
+  - apply forallb_forall. intros y Hy. cbn in Hy. apply in_upd in Hy. destruct Hy as [Hy|[x [Hx Ey]]].
+    + rewrite forallb_forall in V. eapply valid_node_mono; try eassumption; [left; reflexivity | apply V; exact Hy].
+    + rewrite Hn in Hx. inversion Hx; subst. exact Hf.
+  - eapply implb_mono; [exact Vc|]. intros E. apply andb_true_iff in E. destruct E as [Ea E4].
+    apply andb_true_iff. split; [exact Ea | exact (H4 E4)].
+Qed.
+
+Lemma forallb_repeat_S0 : forall k, forallb is_S0 (repeat S0 k) = true.
+Proof. induction k; [reflexivity | exact IHk]. Qed.
+
+Lemma valid_start : forall plan, valid (gc_start plan) = true.
+Proof.
+  intros plan. unfold valid, gc_start. cbn [alloc_committed implb per_node]. rewrite andb_true_r.
+  apply forallb_forall. intros nc Hnc. apply in_map_iff in Hnc. destruct Hnc as [k [E _]]. subst nc.
+  unfold valid_node, nc_start, all_stage. cbn [alloc_done proc_logged marker_made stages proc_committed marker_deleted implb].
+  rewrite forallb_repeat_S0. reflexivity.
+Qed.
+
+Lemma forallb_upd_mono : forall (P : nconf -> bool) f l n nc,
+  nth_error l n = Some nc -> (P nc = true -> P (f nc) = true) ->
+  forallb P l = true -> forallb P (upd n f l) = true.
+Proof.
+  intros P f l n nc Hn Hp H. apply forallb_upd_at; [exact H|]. intros x Hx. rewrite Hn in Hx. inversion Hx; subst.
+  apply Hp. rewrite forallb_forall in H. apply H. eapply nth_error_In. exact Hn.
+Qed.
+
+(* one node's configuration changes by f: the step keeps validity if the four
+   per-node facts only grow at that node and the changed node is valid *)
+Lemma valid_set : forall g n f nc,
+  nth_error (per_node g) n = Some nc -> valid g = true ->
+  let g' := mkGc (alloc_logged g) (alloc_committed g) (upd n f (per_node g)) in
+  (marker_made nc = true -> marker_made (f nc) = true) ->
+  (all_stage is_S6 nc = true -> all_stage is_S6 (f nc) = true) ->
+  (marker_deleted nc = true -> marker_deleted (f nc) = true) ->
+  (proc_committed nc = true -> proc_committed (f nc) = true) ->
+  (valid_node g' nc = true -> valid_node g' (f nc) = true) -> valid g' = true.
+Proof.
+  intros g n f nc Hn V g' M1 M2 M3 M4 Hf.
+  assert (H1 : G1 g = true -> G1 g' = true) by (unfold G1; cbn [per_node]; apply forallb_upd_mono with (nc := nc); assumption).
+  assert (H2 : G2 g = true -> G2 g' = true) by (unfold G2; cbn [per_node]; apply forallb_upd_mono with (nc := nc); assumption).
+  assert (H3 : G3 g = true -> G3 g' = true) by (unfold G3; cbn [per_node]; apply forallb_upd_mono with (nc := nc); assumption).
+  assert (H4 : G4 g = true -> G4 g' = true) by (unfold G4; cbn [per_node]; apply forallb_upd_mono with (nc := nc); assumption).
+  eapply valid_set0; eauto. apply Hf.
+  eapply valid_node_mono; try eassumption; [left; reflexivity|].
+  apply valid_node_of; [exact V | eapply nth_error_In; exact Hn].
+Qed.
+
+Ltac split_valid_node H :=
+  unfold valid_node in H |- *; cbn [alloc_done proc_logged marker_made stages proc_committed marker_deleted all_stage] in H |- *;
+  repeat (apply andb_true_iff in H; let X := fresh "X" in destruct H as [H X]);
+  repeat (apply andb_true_iff; split); try assumption.
+
+Theorem valid_step : forall g c g', gstep g c = Some g' -> valid g = true -> valid g' = true.
+Proof.
+  intros g c g' S V. destruct c; unfold gstep in S; cbv zeta in S.
+  - (* GLogAlloc *)
+    destruct (alloc_logged g) eqn:Ea; [discriminate|]. inversion S; subst g'. clear S.
+    unfold valid in *. apply andb_true_iff in V. destruct V as [V Vc]. apply andb_true_iff. split.
+    + cbn [per_node]. apply forallb_forall. intros y Hy. rewrite forallb_forall in V.
+      eapply valid_node_mono; [right; reflexivity | | | | apply V; exact Hy]; auto.
+    + cbn. destruct (alloc_committed g) eqn:Ec; [|reflexivity]. rewrite Ea in Vc. cbn in Vc. discriminate.
+  - (* GAlloc *)
+    destruct (nth_error (per_node g) n) as [nc|] eqn:Hn; [|discriminate].
+    destruct (alloc_logged g && negb (alloc_done nc) && earlier_made (per_node g) n) eqn:C; [|discriminate].
+    inversion S; subst g'. clear S. apply andb_true_iff in C. destruct C as [C _]. apply andb_true_iff in C. destruct C as [Cl _].
+    eapply valid_set; try exact Hn; try exact V; cbn; auto.
+    intros VN. split_valid_node VN; cbn [alloc_logged alloc_committed per_node]; rewrite ?Cl; first [reflexivity | apply implb_true_r].
+  - (* GLogProc *)
+    destruct (nth_error (per_node g) n) as [nc|] eqn:Hn; [|discriminate].
+    destruct (alloc_done nc && negb (proc_logged nc)) eqn:C; [|discriminate].
+    inversion S; subst g'. clear S. apply andb_true_iff in C. destruct C as [Cd _].
+    eapply valid_set; try exact Hn; try exact V; cbn; auto.
+    intros VN. split_valid_node VN; cbn [alloc_logged alloc_committed per_node]; rewrite ?Cd; first [reflexivity | apply implb_true_r].
+  - (* GCreateProc *)
+    destruct (nth_error (per_node g) n) as [nc|] eqn:Hn; [|discriminate].
+    destruct (proc_logged nc && negb (marker_made nc)) eqn:C; [|discriminate].
+    inversion S; subst g'. clear S. apply andb_true_iff in C. destruct C as [Cp _].
+    eapply valid_set; try exact Hn; try exact V; cbn; auto.
+    intros VN. split_valid_node VN; cbn [alloc_logged alloc_committed per_node]; rewrite ?Cp; first [reflexivity | apply implb_true_r].
+  - (* GInst *)
+    destruct (nth_error (per_node g) n) as [nc|] eqn:Hn; [|discriminate].
+    destruct (nth_error (stages nc) i) as [s|] eqn:Hs; [|discriminate].
+    destruct (next_stage s) as [s'|] eqn:Hns; [|discriminate].
+    destruct (cond_complete g) eqn:Cc; [|discriminate]. inversion S; subst g'. clear S.
+    eapply valid_set; try exact Hn; try exact V; cbn; auto.
+    + (* the node was not complete: s has a successor *)
+      intros A6. exfalso. unfold all_stage in A6. rewrite forallb_forall in A6.
+      specialize (A6 s (nth_error_In _ _ Hs)). destruct s; cbn in *; congruence.
+    + intros VN.
+      assert (G1' : forallb marker_made (upd n (fun x => mkNc (alloc_done x) (proc_logged x) (marker_made x)
+                       (upd i (fun _ => s') (stages x)) (proc_committed x) (marker_deleted x)) (per_node g)) = true).
+      { apply forallb_upd_mono with (nc := nc); [exact Hn | cbn; auto | exact Cc]. }
+      split_valid_node VN. cbn [per_node]. rewrite G1'. apply implb_true_r.
+  - (* GCommitProc *)
+    destruct (nth_error (per_node g) n) as [nc|] eqn:Hn; [|discriminate].
+    destruct (cond_complete g && all_done g && forallb marker_deleted (per_node g) && negb (proc_committed nc)) eqn:C; [|discriminate].
+    inversion S; subst g'. clear S.
+    apply andb_true_iff in C. destruct C as [C _]. apply andb_true_iff in C. destruct C as [C C3].
+    apply andb_true_iff in C. destruct C as [C1 C2].
+    eapply valid_set; try exact Hn; try exact V; cbn; auto.
+    assert (E1 : forallb marker_made (upd n (fun x => mkNc (alloc_done x) (proc_logged x) (marker_made x) (stages x) true (marker_deleted x)) (per_node g)) = true)
+      by (apply forallb_upd_mono with (nc := nc); [exact Hn | cbn; auto | exact C1]).
+    assert (E2 : forallb (all_stage is_S6) (upd n (fun x => mkNc (alloc_done x) (proc_logged x) (marker_made x) (stages x) true (marker_deleted x)) (per_node g)) = true)
+      by (apply forallb_upd_mono with (nc := nc); [exact Hn | cbn; auto | exact C2]).
+    assert (E3 : forallb marker_deleted (upd n (fun x => mkNc (alloc_done x) (proc_logged x) (marker_made x) (stages x) true (marker_deleted x)) (per_node g)) = true)
+      by (apply forallb_upd_mono with (nc := nc); [exact Hn | cbn; auto | exact C3]).
+    intros VN. split_valid_node VN; cbn [per_node implb]; assumption.
+  - (* GCommitAlloc *)
+    destruct (alloc_logged g && negb (alloc_committed g) && cond_complete g && all_done g && forallb proc_committed (per_node g)) eqn:C; [|discriminate].
+    inversion S; subst g'. clear S.
+    apply andb_true_iff in C. destruct C as [C C4]. apply andb_true_iff in C. destruct C as [C _].
+    apply andb_true_iff in C. destruct C as [C _]. apply andb_true_iff in C. destruct C as [Ca _].
+    unfold valid in *. apply andb_true_iff in V. destruct V as [V Vc]. apply andb_true_iff. split.
+    + cbn [per_node]. apply forallb_forall. intros y Hy. rewrite forallb_forall in V.
+      eapply valid_node_mono; [left; reflexivity | | | | apply V; exact Hy]; auto.
+    + cbn. rewrite Ca, C4. reflexivity.
+  - (* GDeleteProc *)
+    destruct (nth_error (per_node g) n) as [nc|] eqn:Hn; [|discriminate].
+    destruct (cond_complete g && all_done g && negb (marker_deleted nc)) eqn:C; [|discriminate].
+    inversion S; subst g'. clear S.
+    apply andb_true_iff in C. destruct C as [C _]. apply andb_true_iff in C. destruct C as [C1 C2].
+    eapply valid_set; try exact Hn; try exact V; cbn; auto.
+    assert (E1 : forallb marker_made (upd n (fun x => mkNc (alloc_done x) (proc_logged x) (marker_made x) (stages x) (proc_committed x) true) (per_node g)) = true)
+      by (apply forallb_upd_mono with (nc := nc); [exact Hn | cbn; auto | exact C1]).
+    assert (E2 : forallb (all_stage is_S6) (upd n (fun x => mkNc (alloc_done x) (proc_logged x) (marker_made x) (stages x) (proc_committed x) true) (per_node g)) = true)
+      by (apply forallb_upd_mono with (nc := nc); [exact Hn | cbn; auto | exact C2]).
+    intros VN. split_valid_node VN; cbn [per_node implb]; assumption.
+Qed.
+
+Theorem reachable_valid : forall plan cs g, grun (gc_start plan) cs = Some g -> valid g = true.
+Proof.
+  intros plan cs. assert (H : forall g0, valid g0 = true -> forall g, grun g0 cs = Some g -> valid g = true).
+  { induction cs as [|c t IH]; intros g0 V0 g R; cbn in R; [inversion R; subst; exact V0|].
+    destruct (gstep g0 c) as [g1|] eqn:S; [|discriminate]. eapply IH; [|exact R]. eapply valid_step; eauto. }
+  intros g R. eapply H; [apply valid_start | exact R].
+Qed.
